@@ -445,3 +445,44 @@ def stmts_when(fi: FunctionInfo, repo: Repo, pred) -> list[ast.stmt]:
                 out.append(n)
     out.sort(key=lambda s: (s.lineno, s.col_offset))
     return out
+
+
+def parameter_typed_attributes(repo: Repo) -> set[str]:
+    """Names of model-item attributes whose annotation mentions ParameterType / Parameter (values that change per evaluation)."""
+    out = set()
+    for ci in repo.classes.values():
+        if not ci.rel.startswith(("glotaran/model/", "glotaran/builtin/megacomplexes/")):
+            continue
+        for name, ann in ci.annotations.items():
+            t = norm(ann)
+            if "ParameterType" in t or t in ("Parameter", "Parameter | None") or "list[Parameter]" in t or "dict[str, Parameter]" in t:
+                out.add(name)
+    return out
+
+
+def check_no_parameter_state_in_constructors(ctx, rule: str) -> None:
+    repo = ctx.repo
+    pattrs = parameter_typed_attributes(repo)
+    ctx.sites(rule, "parameter-typed model attributes known", len(pattrs), 5)
+    n = 0
+    for ci in repo.classes.values():
+        if ci.rel not in ("glotaran/optimization/data_provider.py", "glotaran/optimization/matrix_provider.py", "glotaran/optimization/estimation_provider.py"):
+            continue
+        init = ci.methods.get("__init__")
+        if init is None:
+            continue
+        n += 1
+        ctx.touch(init)
+        bad = []
+        for a in nodes(init, ast.Attribute, nested=True):
+            if not isinstance(a.ctx, ast.Load):
+                continue
+            if a.attr in pattrs and not (isinstance(a.value, ast.Name) and a.value.id == "self"):
+                bad.append(a)
+            if a.attr == "parameters" and not (isinstance(a.value, ast.Name) and a.value.id == "self"):
+                bad.append(a)
+        ctx.ob(rule, f"{ci.name}.__init__/no-parameter-values-captured", not bad, init, stmt_of(bad[0]) if bad else init.node,
+               "the optimiser replaces the group's parameters before every evaluation; a value read from a parameter-typed attribute "
+               "(dataset scale, megacomplex parameter, `.parameters`) in the constructor stays at the initial parameters for the whole fit",
+               [f"reads `{norm(a)}` (line {a.lineno})" for a in bad[:4]] or None, construct=short(stmt_of(bad[0]), 110) if bad else f"{ci.name}.__init__")
+    ctx.sites(rule, "provider constructors examined", n, 4)
